@@ -391,7 +391,11 @@ func (x *Exec) applyContract(st *State, fr *frame, con *Contract, name string, s
 	}
 	// captured values of the callee are some (unknown) byte slices for the caller
 	for _, cp := range con.Captures {
-		env.vars[cp.Name] = s.symVal(s.fresh("callee.capture:"+cp.Name), types.NewSlice(types.Typ[types.Uint8]))
+		if cp.Kind == "scalar" {
+			env.vars[cp.Name] = Sc{s.declare(s.fresh("callee.capture:"+cp.Name), "Int"), "Int"}
+		} else {
+			env.vars[cp.Name] = s.symVal(s.fresh("callee.capture:"+cp.Name), types.NewSlice(types.Typ[types.Uint8]))
+		}
 	}
 	// ghost variables of the callee: their final values are some (unknown) values for the caller
 	for _, gv := range con.GhostVars {
